@@ -140,12 +140,10 @@ def emit (reasons : List (Nat × String)) (r : Resp) : Option Emitted :=
   | .declined => none
   | .noContent => some ⟨r.status, reason, r.headers, []⟩
   | .base =>
-    if r.status = 304 then some ⟨r.status, reason, r.headers, r.body.flatten⟩ else
-    let h1 := if !r.ctype.isEmpty && !(match getItem r.headers "Content-Type".toList with
-                                       | some v => !v.isEmpty | none => false)
+    if r.status = 304 || r.status = 204 then some ⟨r.status, reason, r.headers, []⟩ else
+    let h1 := if !r.ctype.isEmpty && !contains r.headers "Content-Type".toList
               then r.headers ++ [("Content-Type".toList, iso r.ctype)] else r.headers
-    let h2 := if r.clen ≠ 0 && !(match getItem h1 "Content-Length".toList with
-                                 | some v => !v.isEmpty | none => false)
+    let h2 := if r.clen ≠ 0 && !contains h1 "Content-Length".toList
               then h1 ++ [("Content-Length".toList, natStr r.clen)] else h1
     some ⟨r.status, reason, h2, r.body.flatten⟩
 
